@@ -291,13 +291,20 @@ class ParseContext(ParserEngine):
 
     def isolate(self, exp: Func) -> Any:
         self.states.push()
+        cutfailed = False
         try:
             self.expcall(exp)
             return cstfinal(self.cst)
+        except FailedParse:
+            # a failure after a cut must stay visible to the enclosing option
+            cutfailed = self.state.cutseen
+            raise
         finally:
             ast = self.ast
             self.states.pop()
             self.ast = ast
+            if cutfailed:
+                self.state.cutseen = True
 
     _isolate = isolate
 
@@ -308,25 +315,30 @@ class ParseContext(ParserEngine):
         omitsep: bool = False,
     ) -> None:
         while True:
-            with suppress(OptionSucceeded):
-                with self.option():
-                    p = self.pos
+            try:
+                with suppress(OptionSucceeded):
+                    with self.option():
+                        p = self.pos
 
-                    if prefix:
-                        pcst = self.isolate(prefix)
-                        if not omitsep:
-                            self.state.append(pcst)
-                        self.cut()
+                        if prefix:
+                            pcst = self.isolate(prefix)
+                            if not omitsep:
+                                self.state.append(pcst)
+                            self.cut()
 
-                    cst = self.isolate(exp)
-                    self.state.append(cst)
+                        cst = self.isolate(exp)
+                        self.state.append(cst)
 
-                    if self.pos == p:
-                        raise self.newexcept(
-                            f'{self.repeat.__name__} matched on no input',
-                        )
-                # note: dit not match sep? exp, so quit
-                break
+                        if self.pos == p:
+                            raise self.newexcept(
+                                f'{self.repeat.__name__} matched on no input',
+                            )
+                    # note: dit not match sep? exp, so quit
+                    break
+            except FailedParse:
+                # an iteration failed after a cut: the repetition is committed
+                self.state.cutseen = True
+                raise
 
     def closure(
         self,
